@@ -23,6 +23,7 @@ import (
 	"github.com/MixinNetwork/mixin/storage"
 	"github.com/MixinNetwork/mixin/verifgen"
 	"github.com/MixinNetwork/mixin/verifledger"
+	"github.com/dgraph-io/badger/v4"
 	"github.com/dgraph-io/ristretto/v2"
 )
 
@@ -334,6 +335,43 @@ func (f *verifFeed) deliver(s *common.Snapshot, txs []*common.VersionedTransacti
 	return
 }
 
+// finalizeAsLeader does what the proposing node does once its own snapshot has collected its certificate (the tail
+// of cosiHandleResponse): no second transaction validation, the snapshot goes straight into the round. ok=false
+// when the snapshot does not belong to the current round of the chain (the follower path has to open the round).
+func (f *verifFeed) finalizeAsLeader(s *common.Snapshot, signers []crypto.Hash, txs []*common.VersionedTransaction) (d verifDelivery, ok bool) {
+	chain := f.chain(s.NodeId)
+	if chain == nil || chain.State == nil {
+		return d, false
+	}
+	defer func() {
+		if e := recover(); e != nil {
+			d.Panicked, d.PanicVal = true, e
+			d.Stack = string(debug.Stack())
+			ok = true
+		}
+	}()
+	cache, final := chain.StateCopy()
+	if s.RoundNumber == cache.Number+1 && len(cache.Snapshots) > 0 {
+		// the proposer opens the next round itself before announcing (prepareAnnouncement)
+		nc, nf, _, err := chain.startNewRoundAndPersist(cache, s.References, s.Timestamp, false)
+		if err != nil || nf == nil {
+			return d, false
+		}
+		cache, final = nc, nf
+	}
+	if s.RoundNumber != cache.Number || !s.References.Equal(cache.References) || cache.ValidateSnapshot(s) != nil {
+		return d, false
+	}
+	if err := chain.AddSnapshot(final, cache, s, signers); err != nil {
+		panic(err)
+	}
+	d.Finalized = true
+	if len(txs) == 1 {
+		d.Err = chain.node.reloadConsensusState(s, txs[0])
+	}
+	return d, true
+}
+
 // feedBatch = nextSnapshot + sign + deliver for already-built transactions.
 func (f *verifFeed) feedBatch(chainId crypto.Hash, txs []*common.VersionedTransaction, ts uint64) (*common.Snapshot, verifDelivery) {
 	hashes := make([]crypto.Hash, len(txs))
@@ -375,6 +413,19 @@ type verifProxy struct {
 	onCall  func(idx int, method string, before bool) // schedule-injection hook, runs at both sides of every call
 	inHook  bool
 	stopped bool
+	// fault injection: the next n calls of a method return badger.ErrConflict without being performed (what Badger
+	// answers when a concurrent commit touched a key the call had read; the kernel retries such calls)
+	conflicts map[string]int
+}
+
+func (p *verifProxy) takeConflict(method string) bool {
+	p.mu.Lock()
+	defer p.mu.Unlock()
+	if p.conflicts[method] > 0 {
+		p.conflicts[method]--
+		return true
+	}
+	return false
 }
 
 func newVerifProxy(s storage.Store) *verifProxy { return &verifProxy{Store: s, cutAt: -1} }
@@ -431,6 +482,10 @@ func (p *verifProxy) AddNodeOperation(tx *common.VersionedTransaction, timestamp
 }
 func (p *verifProxy) WriteTransaction(tx *common.VersionedTransaction) error {
 	i := p.enter("WriteTransaction", tx.PayloadHash().String()[:8])
+	if p.takeConflict("WriteTransaction") {
+		p.leave(i, "WriteTransaction")
+		return badger.ErrConflict
+	}
 	err := p.Store.WriteTransaction(tx)
 	p.leave(i, "WriteTransaction")
 	return err
@@ -455,12 +510,20 @@ func (p *verifProxy) WriteConsensusSnapshot(snap *common.Snapshot, tx *common.Ve
 }
 func (p *verifProxy) LockUTXOs(inputs []*common.Input, tx crypto.Hash, fork bool) error {
 	i := p.enter("LockUTXOs", tx.String()[:8])
+	if p.takeConflict("LockUTXOs") {
+		p.leave(i, "LockUTXOs")
+		return badger.ErrConflict
+	}
 	err := p.Store.LockUTXOs(inputs, tx, fork)
 	p.leave(i, "LockUTXOs")
 	return err
 }
 func (p *verifProxy) LockDepositInput(deposit *common.DepositData, tx crypto.Hash, fork bool) error {
 	i := p.enter("LockDepositInput", tx.String()[:8])
+	if p.takeConflict("LockDepositInput") {
+		p.leave(i, "LockDepositInput")
+		return badger.ErrConflict
+	}
 	err := p.Store.LockDepositInput(deposit, tx, fork)
 	p.leave(i, "LockDepositInput")
 	return err
@@ -473,6 +536,10 @@ func (p *verifProxy) LockMintInput(mint *common.MintData, tx crypto.Hash, fork b
 }
 func (p *verifProxy) LockGhostKeys(keys []*crypto.Key, tx crypto.Hash, fork bool) error {
 	i := p.enter("LockGhostKeys", tx.String()[:8])
+	if p.takeConflict("LockGhostKeys") {
+		p.leave(i, "LockGhostKeys")
+		return badger.ErrConflict
+	}
 	err := p.Store.LockGhostKeys(keys, tx, fork)
 	p.leave(i, "LockGhostKeys")
 	return err
